@@ -949,7 +949,21 @@ func genBadString(t *rapid.T) string {
 	return base[:at] + piece + base[at:]
 }
 
+// wideLookalike: a code point >= U+0100 whose LOW octet is a character that tokens and keys allow
+// (U+0161 -> 'a', U+0430 -> '0', U+4E2D -> '-', U+212A -> '*', U+0141 -> 'A', U+FF5A -> 'Z' ...):
+// a validator that narrows runes to bytes lets these through.
+func wideLookalike(t *rapid.T) string {
+	low := rapid.SampledFrom([]byte("az09AZ-_*.:/%")).Draw(t, "widelow")
+	hi := rapid.SampledFrom([]rune{0x100, 0x400, 0x2100, 0x4e00, 0xff00, 0x1f600, 0x10ff00}).Draw(t, "widehi")
+	return string(hi | rune(low))
+}
+
 func genBadToken(t *rapid.T) string {
+	if rapid.IntRange(0, 5).Draw(t, "badtokwide") == 0 {
+		tok := genToken(t)
+		at := rapid.IntRange(1, len(tok)).Draw(t, "wideat")
+		return tok[:at] + wideLookalike(t) + tok[at:]
+	}
 	switch rapid.IntRange(0, 3).Draw(t, "badtokmode") {
 	case 0:
 		return rapid.SampledFrom([]string{"", "1a", "_a", "-a", "*a", "a b", " a", "a ", "a\"", "a,b", "a;b", "a=b", "a\n", "a\u00e9", "a\x80", "a(", "a+", "a~", "a\t", "a\\", "/", "9", "\u00e9"}).Draw(t, "badtok")
@@ -971,6 +985,11 @@ func genBadToken(t *rapid.T) string {
 }
 
 func genBadKey(t *rapid.T) string {
+	if rapid.IntRange(0, 5).Draw(t, "badkeywide") == 0 {
+		k := genKey(t)
+		at := rapid.IntRange(1, len(k)).Draw(t, "widekat")
+		return k[:at] + wideLookalike(t) + k[at:]
+	}
 	switch rapid.IntRange(0, 3).Draw(t, "badkeymode") {
 	case 0:
 		return rapid.SampledFrom([]string{"", "A", "Ab", "aB", "InvalidKey", "1a", "_a", "-a", "a.b", "a:b", "a*", "a/", "a%", "a b", "a=", "a;", "a\u00e9", "a\x80", "a\n", " a", "\u00e9"}).Draw(t, "badkey")
